@@ -479,3 +479,138 @@ func (L *Loaded) scanGlobalStructs() {
 		}
 	}
 }
+
+// scanErrorGlobals: package-level `var ErrX = NewError(msg, code, nil)` and
+// constant maps keyed by ErrX.Code() (ociregistry.errorStatuses), read off
+// the package initialiser.
+type errGlobal struct {
+	G    *ssa.Global
+	Msg  string
+	Code string
+}
+
+func (L *Loaded) scanErrorGlobals() {
+	L.errGlobals = map[*ssa.Global]errGlobal{}
+	L.constMaps = map[string]map[string]int64{}
+	for _, p := range L.prog.AllPackages() {
+		if !L.isRepoPkg(p.Pkg) {
+			continue
+		}
+		init := p.Func("init")
+		if init == nil {
+			continue
+		}
+		callOf := map[ssa.Value]*ssa.Global{} // result of ErrX.Code() → ErrX
+		loadOf := map[ssa.Value]*ssa.Global{}
+		mapOf := map[ssa.Value]map[string]int64{}
+		for _, b := range init.Blocks {
+			for _, in := range b.Instrs {
+				switch in := in.(type) {
+				case *ssa.UnOp:
+					if g, ok := in.X.(*ssa.Global); ok {
+						loadOf[in] = g
+					}
+				case *ssa.Call:
+					if in.Call.IsInvoke() && in.Call.Method.Name() == "Code" {
+						if g, ok := loadOf[in.Call.Value]; ok {
+							callOf[in] = g
+						}
+					}
+				case *ssa.MakeMap:
+					mapOf[in] = map[string]int64{}
+				case *ssa.MapUpdate:
+					m, ok := mapOf[in.Map]
+					if !ok {
+						continue
+					}
+					v, ok := in.Value.(*ssa.Const)
+					if !ok || v.Value == nil {
+						delete(mapOf, in.Map)
+						continue
+					}
+					key := ""
+					switch k := in.Key.(type) {
+					case *ssa.Const:
+						if k.Value != nil && k.Value.Kind() == constant.String {
+							key = constant.StringVal(k.Value)
+						}
+					default:
+						if g, ok := callOf[k]; ok {
+							key = "$code:" + g.Name()
+						}
+					}
+					if key == "" {
+						delete(mapOf, in.Map)
+						continue
+					}
+					m[key] = v.Int64()
+				case *ssa.Store:
+					g, ok := in.Addr.(*ssa.Global)
+					if !ok {
+						continue
+					}
+					if m, ok := mapOf[in.Val]; ok {
+						L.constMaps["G_"+sanitize(g.Pkg.Pkg.Name()+"_"+g.Name())] = m
+					}
+					if c, ok := in.Val.(*ssa.Call); ok {
+						if callee := c.Call.StaticCallee(); callee != nil && callee.Name() == "NewError" && len(c.Call.Args) == 3 {
+							m0, ok0 := c.Call.Args[0].(*ssa.Const)
+							c0, ok1 := c.Call.Args[1].(*ssa.Const)
+							if ok0 && ok1 && m0.Value != nil && c0.Value != nil {
+								L.errGlobals[g] = errGlobal{g, constant.StringVal(m0.Value), constant.StringVal(c0.Value)}
+							}
+						}
+					}
+				}
+			}
+		}
+	}
+	// resolve $code: keys
+	byName := map[string]string{}
+	for g, e := range L.errGlobals {
+		byName[g.Name()] = e.Code
+	}
+	for k, m := range L.constMaps {
+		m2 := map[string]int64{}
+		ok := true
+		for key, v := range m {
+			if strings.HasPrefix(key, "$code:") {
+				c, found := byName[strings.TrimPrefix(key, "$code:")]
+				if !found {
+					ok = false
+				}
+				key = c
+			}
+			m2[key] = v
+		}
+		if ok && L.immutableGlobal[k] {
+			L.constMaps[k] = m2
+		} else {
+			delete(L.constMaps, k)
+		}
+	}
+	// a MapUpdate/delete on such a map outside init makes it mutable
+	for f := range L.allFuncs {
+		if f.Name() == "init" || !L.isRepoFunc(f) {
+			continue
+		}
+		for _, b := range f.Blocks {
+			for _, in := range b.Instrs {
+				var mv ssa.Value
+				switch in := in.(type) {
+				case *ssa.MapUpdate:
+					mv = in.Map
+				case *ssa.Call:
+					if bi, ok := in.Call.Value.(*ssa.Builtin); ok && (bi.Name() == "delete" || bi.Name() == "clear") {
+						mv = in.Call.Args[0]
+					}
+				}
+				if u, ok := mv.(*ssa.UnOp); ok {
+					if g, ok := u.X.(*ssa.Global); ok {
+						delete(L.constMaps, "G_"+sanitize(g.Pkg.Pkg.Name()+"_"+g.Name()))
+					}
+				}
+			}
+		}
+	}
+}
